@@ -466,8 +466,11 @@ class TransactionManager(Elaboratable):
     def elaborate(self, platform):
         self.transactions = DependencyContext.get().get_dependency(TransactionsKey())
         self.methods = DependencyContext.get().get_dependency(DefinedMethodsKey())
+        # Relations can also be declared on methods defined with `provide`. The key is read directly,
+        # because `_simultaneous` still adds to it.
+        provided_methods = list(DependencyContext.get().dependencies.get(ProvidedMethodsKey(), []))
 
-        for elem in chain(self.transactions, self.methods):
+        for elem in chain(self.transactions, self.methods, provided_methods):
             for relation in elem.relations:
                 elem._body.relations.append(RelationBase(**{**dataclass_asdict(relation), "end": relation.end._body}))
             for elem2 in elem.simultaneous_list:
